@@ -2,6 +2,7 @@
 //!
 //! usage: verif-harness <domain> [key=value ...]
 
+mod infl;
 mod mem;
 mod memc;
 mod rng;
@@ -29,6 +30,7 @@ fn main() {
     let code = match domain.as_str() {
         "mem" => mem::main(&args),
         "memc" => memc::main(&args),
+        "infl" => infl::main(&args),
         _ => {
             eprintln!("unknown domain {domain:?}");
             2
